@@ -32,6 +32,14 @@ BuildOutcome(e) == e.raised <=> ~Accept(subs, rxns)
 BuildIsValueError(e) == e.raised => e.exc = "ValueError"
 BuildNamesKey(e) == e.raised => e.key \in AllViolatedKeys(subs, rxns)
 
+(* check_balance(strict, throw) on a constructed system: the answer is Accept; with throw it  *)
+(* raises a ValueError naming a violated key exactly when the system is not balanced          *)
+CheckBalanceOK(e) ==
+    IF e.throw THEN /\ e.raised <=> ~Accept(subs, rxns)
+                    /\ (e.raised => (e.exc = "ValueError" /\ e.key \in AllViolatedKeys(subs, rxns)))
+                    /\ (~e.raised => e.result)
+    ELSE ~e.raised /\ (e.result <=> Accept(subs, rxns))
+
 (* B @ N_obs^T = 0 for the observed net stoichiometry matrix *)
 ObservedNetBalanced(N) ==
     KeysOf(subs) = {} \/
@@ -50,6 +58,17 @@ Step(e) ==
     CASE e.ev = "Subst"      -> AddSubstance([name |-> e.name, comp |-> e.comp]) /\ UNCHANGED forms
       [] e.ev = "Rxn"        -> AddReaction(RxnOf(e)) /\ UNCHANGED forms
       [] e.ev = "Build"      -> Build /\ BuildOutcome(e) /\ BuildIsValueError(e) /\ BuildNamesKey(e) /\ UNCHANGED forms
+      [] e.ev = "BuildUnchecked" -> BuildUnchecked /\ ~e.raised /\ UNCHANGED forms
+      [] e.ev = "CheckBalance" -> /\ stage \in {"built", "dyn"}
+                                  /\ CheckBalanceOK(e) /\ UNCHANGED <<vars, forms>>
+      [] e.ev = "Violations" -> /\ stage \in {"built", "dyn"} /\ e.i \in 1..Len(rxns) /\ Len(e.net) = Len(e.keys)
+                                /\ (e.allkeys => e.keys = KeySeq(subs))
+                                /\ \A j \in 1..Len(e.keys) : e.net[j] = Violation(subs, rxns[e.i], e.keys[j])
+                                /\ UNCHANGED <<vars, forms>>
+      [] e.ev = "ChargeViolation" -> /\ stage \in {"built", "dyn"} /\ e.i \in 1..Len(rxns)
+                                     /\ e.v = Violation(subs, rxns[e.i], 0) /\ UNCHANGED <<vars, forms>>
+      [] e.ev = "LinDepAt"   -> /\ stage \in {"built", "dyn"} /\ Len(e.u) = NS /\ Len(e.y0) = NS
+                                /\ FormOKAt(subs, e.elim, e.u, e.const, e.y0) /\ UNCHANGED <<vars, forms>>
       [] e.ev = "BVectors"   -> /\ stage \in {"built", "dyn"} /\ e.keys = KeySeq(subs) /\ e.B = BMatrix(subs)
                                 /\ UNCHANGED <<vars, forms>>
       [] e.ev = "NetStoich"  -> /\ stage \in {"built", "dyn"} /\ Len(e.N) = Len(rxns) /\ ObservedNetBalanced(e.N)
@@ -69,7 +88,8 @@ Step(e) ==
                                 /\ UNCHANGED <<vars, forms>>
       [] e.ev = "Integrated" -> /\ stage = "dyn" /\ last = "set" /\ Len(e.dev) = Len(KeySeq(subs))
                                 /\ DriftOK(e.dev) /\ UNCHANGED <<vars, forms>>
-      [] e.ev = "Bounds"     -> /\ stage = "dyn" /\ last = "set" /\ QSeq(e.ub) = Bounds(subs, c)
+      [] e.ev = "Bounds"     -> /\ stage = "dyn" /\ last = "set"
+                                /\ QSeq(e.ub) = BoundsSkip(subs, c, SeqRange(e.skip))
                                 /\ UNCHANGED <<vars, forms>>
       [] e.ev = "SafeStep"   -> /\ stage = "dyn" /\ last = "set"
                                 /\ InBox(Euler(rxns, c, Norm(e.h)), Bounds(subs, c))
@@ -115,11 +135,23 @@ Clause ==
               ELSE IF Norm(e.u[e.elim]) # QOne THEN "lindep-not-solved-for"
               ELSE "lindep-not-an-invariant"
         [] e.ev = "LinDepDone" -> IF ~(stage \in {"built", "dyn"}) THEN "step:LinDepDone" ELSE "lindep-incomplete"
+        [] e.ev = "BuildUnchecked" -> IF stage # "rxn" THEN "step:BuildUnchecked" ELSE "unchecked-construction-raised"
+        [] e.ev = "CheckBalance" -> IF ~(stage \in {"built", "dyn"}) THEN "step:CheckBalance" ELSE "check_balance"
+        [] e.ev = "Violations" ->
+              IF ~(stage \in {"built", "dyn"}) \/ ~(e.i \in 1..Len(rxns)) \/ Len(e.net) # Len(e.keys) THEN "step:Violations"
+              ELSE IF e.allkeys /\ e.keys # KeySeq(subs) THEN "violation-keys" ELSE "composition_violation"
+        [] e.ev = "ChargeViolation" -> IF ~(stage \in {"built", "dyn"}) THEN "step:ChargeViolation" ELSE "charge_neutrality_violation"
+        [] e.ev = "LinDepAt" ->
+              IF ~(stage \in {"built", "dyn"}) \/ Len(e.u) # NS \/ Len(e.y0) # NS THEN "step:LinDepAt"
+              ELSE IF Norm(e.u[e.elim]) # QOne THEN "lindep-not-solved-for"
+              ELSE IF ~InRowSpace(subs, e.u) THEN "lindep-not-an-invariant"
+              ELSE "lindep-numeric-constant"
         [] e.ev = "Names" -> IF ~(stage \in {"built", "dyn"}) THEN "step:Names" ELSE "substance-order"
         [] e.ev = "Integrated" ->
               IF ~(stage = "dyn" /\ last = "set") \/ Len(e.dev) # Len(KeySeq(subs)) THEN "step:Integrated"
               ELSE "drift"
-        [] e.ev = "Bounds" -> IF ~(stage = "dyn" /\ last = "set") THEN "step:Bounds" ELSE "bounds"
+        [] e.ev = "Bounds" -> IF ~(stage = "dyn" /\ last = "set") THEN "step:Bounds"
+                              ELSE IF e.skip = <<>> THEN "bounds" ELSE "bounds-skip-keys"
         [] e.ev = "SafeStep" ->
               IF ~(stage = "dyn" /\ last = "set") THEN "step:SafeStep"
               ELSE IF ~InBox(Euler(rxns, c, Norm(e.h)), Bounds(subs, c)) THEN "step-leaves-box"
